@@ -41,18 +41,20 @@ def explain(c, colgroup, open_ids):
     gkey = grp.split("/")[0]
     hosts = (c.get("group_hosts") or {}).get(gkey) or [gkey]
     g = next((x for x in (c.get("groups") or []) if x["col"] == int(ci) and x["group"] == grp), None)
-    if c.get("desc") and not c["preagg"] and FINDING_DD in open_ids and any(h in (c.get("sig_dup") or []) for h in hosts):
-        # ORDER BY time DESC on the row path over a series with a cross-generation duplicate inside the range: the
-        # overwritten version is aggregated too (any function)
-        return FINDING_DD
-    if call["fn"] in ("first", "last") and c.get("desc"):
-        # ORDER BY time DESC: first()/last() return the value of another row
+    if c.get("desc"):
+        fl = call["fn"] in ("first", "last")
+        # first()/last() return the value of another row
         wrong_row = g is not None and not g["null"] and any(r["v"] == g["v"] for r in (g["rows"] or []))
-        if c["preagg"] and c.get("group_by") and g is not None and not g["null"] and FINDING_DS in open_ids:
+        if fl and c["preagg"] and c.get("group_by") and g is not None and not g["null"] and FINDING_DS in open_ids:
             return FINDING_DS     # (the row may even lie outside the time range)
-        if wrong_row and not c["preagg"] and FINDING_DR in open_ids:
+        if fl and wrong_row and not c["preagg"] and FINDING_DR in open_ids:
             return FINDING_DR
-        return None
+        if not c["preagg"] and FINDING_DD in open_ids and any(h in (c.get("sig_dup") or []) for h in hosts):
+            # row path over a series with a cross-generation duplicate inside the range: the overwritten version is
+            # aggregated too (any function)
+            return FINDING_DD
+        if fl:
+            return None
     # first()/last() served by the shortcut where the range enters / leaves a multi-segment chunk
     if FINDING_CT in open_ids and call["fn"] in ("first", "last") and c["preagg"] and any(h in (c.get("sig_chunk_time") or []) for h in hosts):
         return FINDING_CT
@@ -314,7 +316,7 @@ def main(ck):
                 break
 
     # ---- stored statistics and chunk reads
-    nreads, nstats, nchunks_multi, time_only = 0, 0, 0, 0
+    nreads, nstats, nchunks_multi, time_only, all_null = 0, 0, 0, 0, 0
     reads_by = {}
     variant_reader = {"repaired": 0, "current": 0}   # reads that tell the two variants apart and match this one
     for gidx, (hi, k) in enumerate(chunks):
@@ -323,6 +325,7 @@ def main(ck):
         nstats += len(ch.get("stats") or [])
         nchunks_multi += len(ch["segs"]) >= 2
         time_only += bool(ch.get("time_only"))
+        all_null += len(ch.get("all_null_cols") or [])
         slimch = {x: ch[x] for x in ("seq", "level", "order", "series", "segs", "ranges", "stats")}
         ctx = {"history_case": h["case"], "chunk": slimch, "history": {x: h[x] for x in ("case", "nser", "nodup_mode", "ops")}}
         if model_ok and 0 in res:
@@ -429,7 +432,8 @@ def main(ck):
     ck.cov["model_groups_evaluated"] = len(groups)
     ck.cov["bucketed_groups_checked_against_bucket_of"] = len(bterms)
     ck.cov["stored_statistics"] = {"chunks(file x series)": len(chunks), "chunks_with_>=2_segments": nchunks_multi, "column_statistics_compared": nstats,
-                                   "chunks_with_boolean_min/max_time_observation": time_only}
+                                   "chunks_with_boolean_min/max_time_observation": time_only,
+                                   "columns_without_values_in_their_chunk(not read at component level)": all_null}
     ck.cov["chunk_reads"] = {"total": nreads, "by_fn/order": reads_by, "variant_distinguishing_reads_matching": variant_reader}
     ck.cov["memtable_cases"] = {"total": len(mems), "variant_distinguishing_cases_matching": variant_mem}
     ck.cov["traces_validated_against_impl"] = (len(groups) - (len(model_bad) if model_bad else 0)) + nreads + nstats + len(mems)
